@@ -36,7 +36,11 @@ def _patched_init(self, *a, **k):
     if pl is not None or _ACTIVE.get("track"):
         _ACTIVE.setdefault("interps", []).append(self)
         if pl is not None:
-            self.use(pl)
+            if _ACTIVE.get("via_property"):
+                # the other documented way of registering: `interpreter.plugins = [...]`
+                self.plugins = list(self.plugins) + [pl]
+            else:
+                self.use(pl)
         pl2 = _ACTIVE.get("plugin2")
         if pl2 is not None:
             self.use(pl2)
@@ -166,6 +170,7 @@ def _begin_run(sc, env, budget):
     _ACTIVE["plugin"] = None if sc.get("no_plugin") else plugin
     _ACTIVE["plugin2"] = SecondPlugin(rec) if sc.get("second_plugin") and not sc.get("no_plugin") else None
     _ACTIVE["track"] = True
+    _ACTIVE["via_property"] = bool(sc.get("plugin_via_property"))
     _ACTIVE["interps"] = []
     return rec, plugin
 
